@@ -2,7 +2,7 @@
 
 B-19 bounded stand-in (DESIGN §5 C19: the file-system ghost-state contracts for replace_file /
 download_file / update_file are not generated yet): real file:// mirrors for histories of 1-4 versions
-(patches derived by an independent differ, gzip, SHA1 index), with the local copy at every v_i,
+(patches derived by an independent differ, gzip, index with SHA1, SHA256 or both families), with the local copy at every v_i,
 current, foreign or absent; each patch corrupted or truncated; index missing / empty / garbage /
 without Current / with a wrong Current hash; the i-th write, the open and the final rename failing
 (fault injection by patching module attributes from here, not in /repo).
@@ -21,14 +21,29 @@ from props.C18 import _ed_script_difflib
 MOD = "debian.debian_support"
 
 
-def sha1(lines):
-    h = hashlib.sha1()
+def sha1(lines, family="SHA1"):
+    h = hashlib.sha1() if family == "SHA1" else hashlib.sha256()
     for l in lines:
         h.update(l.encode("utf-8"))
     return h.hexdigest()
 
 
-def publish(root, versions, index_mode="ok"):
+def publish(root, versions, index_mode="ok", family="SHA1"):
+    if family == "both":
+        remote = publish(root, versions, index_mode, "SHA1")
+        idx = os.path.join(root, "Packages.diff", "Index")
+        first = open(idx).read() if os.path.exists(idx) else None
+        publish(root, versions, index_mode, "SHA256")
+        if first is not None and index_mode not in ("empty", "garbage"):
+            second = open(idx).read()
+            open(idx, "w").write(first + second.replace("X-Other: 1\n", ""))
+        return remote
+    _sha1 = sha1
+    sha1_ = lambda lines: _sha1(lines, family)
+    return _publish(root, versions, index_mode, family, sha1_)
+
+
+def _publish(root, versions, index_mode, FAM, sha1):
     """write Packages.gz, Packages.diff/Index and the patches; returns the remote URL"""
     os.makedirs(os.path.join(root, "Packages.diff"), exist_ok=True)
     cur = versions[-1]
@@ -43,8 +58,8 @@ def publish(root, versions, index_mode="ok"):
         hist.append("%s %d %s" % (sha1(versions[k]), sum(len(l.encode()) for l in versions[k]), name))
         patches.append("%s %d %s" % (sha1(script), sum(len(l.encode()) for l in script), name))
     idx = os.path.join(root, "Packages.diff", "Index")
-    cur_line = "SHA1-Current: %s %d\n" % (sha1(cur), sum(len(l.encode()) for l in cur))
-    body = "SHA1-History:\n" + "".join(" %s\n" % h for h in hist) + "SHA1-Patches:\n" + "".join(" %s\n" % p for p in patches)
+    cur_line = FAM + "-Current: %s %d\n" % (sha1(cur), sum(len(l.encode()) for l in cur))
+    body = FAM + "-History:\n" + "".join(" %s\n" % h for h in hist) + FAM + "-Patches:\n" + "".join(" %s\n" % p for p in patches)
     if index_mode == "ok":
         open(idx, "w").write(cur_line + body)
     elif index_mode == "missing":
@@ -56,9 +71,9 @@ def publish(root, versions, index_mode="ok"):
     elif index_mode == "no-current":
         open(idx, "w").write(body)
     elif index_mode == "wrong-current":
-        open(idx, "w").write("SHA1-Current: %s 1\n" % ("0" * 40) + body)
+        open(idx, "w").write(FAM + "-Current: %s 1\n" % ("0" * (40 if FAM == "SHA1" else 64)) + body)
     elif index_mode == "extra-fields":
-        open(idx, "w").write("X-Other: 1\n" + cur_line + body + "X-Unmerged-SHA1-History:\n")
+        open(idx, "w").write("X-Other: 1\n" + cur_line + body + "X-Unmerged-" + FAM + "-History:\n")
     return "file://" + os.path.join(root, "Packages")
 
 
@@ -129,7 +144,8 @@ def run_deductive(ctx):
 
 
 def gen_versions(rng):
-    pool = ["Package: a\n", "Version: 1\n", "\n", "Package: b\n", "Depends: a, b\n", "Description: é\n", " more\n", ".\n", " .\n", "x\n"]
+    pool = ["Package: a\n", "Version: 1\n", "\n", "Package: b\n", "Depends: a, b\n", "Description: é\n", " more\n", ".\n", " .\n", "x\n",
+            "Description: a\u2028b\n", "ff\x0cx\n", " n\x85l \x1c\n"]
     v = [rng.choice(pool) for _ in range(rng.randint(0, 6))]
     out = [list(v)]
     for _ in range(rng.randint(0, 3)):
@@ -172,7 +188,7 @@ def run(ctx):
     rng = random.Random(ctx.seed)
     rounds = 120 if ctx.tier == "quick" else 1500
     t = Tally(ctx, "B-19 real file:// mirrors: convergence, hash failures, unusable indexes, injected write / rename faults",
-              "seeded histories of 1-4 versions (0-8 lines) published as gz + SHA1 index + ed patches from an independent differ; local "
+              "seeded histories of 1-4 versions (0-8 lines) published as gz + index (SHA1, SHA256 or both families) + ed patches from an independent differ; local "
               "copy at every v_i / current / foreign / absent; index ok / missing / empty / garbage / without Current / wrong Current / "
               "with unknown fields; each patch garbled or truncated; open, i-th write (every i) and rename failing; non-trivial = "
               "distinct (history, local state, fault)", "%d histories" % rounds)
@@ -200,13 +216,14 @@ def run(ctx):
                 if lcontent is None and lname != "absent":
                     lcontent = dict(locals_)[lname]
                 shutil.rmtree(os.path.join(root, "Packages.diff"), ignore_errors=True)
-                remote = publish(root, versions, index_mode)
+                family = rng.choice(["SHA1", "SHA256", "both"])
+                remote = publish(root, versions, index_mode, family)
                 for f in (local, local + ".new"):
                     if os.path.exists(f):
                         os.unlink(f)
                 if lcontent is not None:
                     open(local, "w", encoding="utf-8").writelines(lcontent)
-                desc = dict(versions=versions, local=lname, index=index_mode, fault=str(fault))
+                desc = dict(versions=versions, local=lname, index=index_mode, hashes=family, fault=str(fault))
                 expect_error = False
                 restore = []
                 if isinstance(fault, tuple) and fault[0] in ("garble", "truncate"):
@@ -319,7 +336,6 @@ def run(ctx):
         "remains. NOT proved: update_file / download_file / download_gunzip_lines (hash checks, index parsing, network) - "
         "covered by the BOUNDED part on real file:// mirrors with injected faults.")
     ctx.assumptions += ["os.unlink / os.path.exists in the finally block do not themselves fail; open(path,'w+') fails before creating or not at all",
-                        "SHA1 indexes only (the interpreter has no _sha256 module: the library's SHA256 path raises NotImplementedError here)",
                         "the mirror is consistent: Current is the hash of the published file, patch k turns v_k into v_k+1",
                         "content lines equal to a lone '.' cannot be transported by ed scripts and are not generated"]
 
